@@ -235,10 +235,24 @@ func SetAutoIDCounter(replayer any, next uint64) (ok bool) {
 		return false
 	}
 	f := v.Elem().FieldByName("currentID")
-	if !f.IsValid() || f.Kind() != reflect.Pointer || f.IsNil() || f.Type().Elem().Kind() != reflect.Uint64 {
+	if !f.IsValid() || f.Kind() != reflect.Pointer || f.IsNil() {
 		return false
 	}
-	p := (*uint64)(unsafe.Pointer(f.Pointer()))
-	*p = next
+	// whatever integer type the counter has: the move is made only when the value fits it
+	tgt := reflect.NewAt(f.Type().Elem(), unsafe.Pointer(f.Pointer())).Elem()
+	switch tgt.Kind() {
+	case reflect.Uint, reflect.Uint8, reflect.Uint16, reflect.Uint32, reflect.Uint64, reflect.Uintptr:
+		if tgt.OverflowUint(next) {
+			return false
+		}
+		tgt.SetUint(next)
+	case reflect.Int, reflect.Int8, reflect.Int16, reflect.Int32, reflect.Int64:
+		if next > 1<<63-1 || tgt.OverflowInt(int64(next)) {
+			return false
+		}
+		tgt.SetInt(int64(next))
+	default:
+		return false
+	}
 	return true
 }
